@@ -70,10 +70,10 @@ def cmp(x,y):
             return c
         else:
             return cmparr(xv, yv)
-    if is_nan(x):
-        x = np.inf
-    if is_nan(y):
-        y = np.inf
+    xnan = isinstance(x, float) and np.isnan(x) ## nan ranks above everything, +inf included; -inf < finite < +inf keep their natural order
+    ynan = isinstance(y, float) and np.isnan(y)
+    if xnan or ynan:
+        return 0 if (xnan and ynan) else 1 if xnan else -1
     if is_iterable(x):
         return cmparr(x,y)
     else:
